@@ -283,8 +283,10 @@ func IsBigDataAction(ctx *fiber.Ctx) bool {
 		return false
 	}
 	// without a body there is nothing to stream: verify the (empty)
-	// payload's hash right away instead of never
-	if ctx.Request().Header.ContentLength() == 0 {
+	// payload's hash right away instead of never. An aws-chunked upload
+	// always has a body (at least the final chunk), so it stays on the
+	// streaming path where the chunk reader rejects the empty stream.
+	if ctx.Request().Header.ContentLength() == 0 && !IsStreamingPayload(ctx.Get("X-Amz-Content-Sha256")) {
 		return false
 	}
 	return true
